@@ -61,10 +61,17 @@ def h2(ctx):
         # several sequential phase helpers (`refresh_redundant_slots`, then `instantiate_enode`): look at the node loop with its
         # private single-use helpers inlined
         v = mir.inline_view(crate, b0)
+        # .. or in a closure of enodes_applied itself (`let apply_to_node = |(x, psn)| { .. }; class.nodes.iter().map(apply_to_node).collect()`):
+        # captured variables resolve to the enclosing function's roles, so the closure is read like the loop body it replaces
+        clos = [cb_ for cb_ in v.all_bodies() if cb_ is not v and cb_.kind == "Closure" and any(role_mentions_call(l[1], "all_slot_occurrences_mut") for l in C.iterator_loops(cb_))
+                and any(c.callee and c.callee.name == "apply_slotmap" for c in cb_.calls)]
         if any(role_mentions_call(l[1], "all_slot_occurrences_mut") for l in C.iterator_loops(v)) and any(c.callee and c.callee.name == "apply_slotmap" for c in v.calls):
             b = b0 = v
         elif len({t.id for t in cands}) == 1:
             b = cands[0]
+        elif len(clos) == 1:
+            b0 = v
+            b = clos[0]
     # (i) occurrence loop over all_slot_occurrences_mut
     loops = C.iterator_loops(b)
     occ = [l for l in loops if role_mentions_call(l[1], "all_slot_occurrences_mut")]
@@ -108,7 +115,8 @@ def h2(ctx):
         v = strip_role(b.role_of_operand(c.args[2]))
         if v[0] == "call" and v[1] == "fresh":
             conds = C.conditions_at(b, c.bb)
-            g = any(cond[0] == "false" and role_str(cond[1]).startswith("contains_key(i.m") for e, cond in conds)
+            # (`m = i.m.clone()` extended in place: the slots of an e-node are distinct, so testing the growing copy is testing i.m)
+            g = any(cond[0] == "false" and (role_str(cond[1]).startswith("contains_key(i.m") or role_str(cond[1]).startswith("contains_key(clone(i.m)")) for e, cond in conds)
             ctx.check(g, "fresh-only-for-uncovered", "a public slot gets a fresh name only if the invocation does not cover it", "enodes_applied gives a fresh name to a slot the invocation covers", where_of(b, c.bb))
             okf = True
     ctx.check(okf, "uncovered-slots-get-fresh", "public slots the invocation does not cover are mapped to Slot::fresh()",
